@@ -11,7 +11,9 @@ let binop_of = function
 let value_of k v = if k = 8 then VBool (v <> Z0) else VInt (kind_of k, v)
 let fault_code = function
   | FDivZero -> 1 | FModZero -> 2 | FOverflow -> 3 | FForStepZero -> 4 | FTypeMismatch -> 5 | FCondNotBool -> 6
-  | FCaseSelector -> 7 | FControlFlow -> 8 | FUndefinedVar -> 9 | FPanic -> 10
+  | FCaseSelector -> 7 | FControlFlow -> 8 | FUndefinedVar -> 9 | FPanic -> 10 | FIndexOOB -> 12
+(* static-class outcomes of the harness: 5 type mismatch .. 9 undefined variable, 10 panic, 11 any other error *)
+let is_static code = code >= 5 && code <= 11
 
 let process line =
   match List.map String.trim (String.split_on_char ':' line) with
@@ -21,12 +23,15 @@ let process line =
     let nx () = let v = a.(!p) in incr p; v in
     let nxi () = int_of_string (nx ()) in
     let instances = ref [] in
+    let arrays = ref [] in
     let rec expr () =
       match nxi () with
       | 0 -> let u = nxi () <> 0 in let k = nxi () in let v = z_of_string (nx ()) in ELit (u, value_of k v)
       | 1 -> EVar (nat_of_int (nxi ()))
       | 2 -> let op = unop_of (nxi ()) in EUn (op, expr ())
-      | _ -> let op = binop_of (nxi ()) in let l = expr () in let r = expr () in EBin (op, l, r) in
+      | 3 -> let op = binop_of (nxi ()) in let l = expr () in let r = expr () in EBin (op, l, r)
+      | _ -> let a = nxi () in let ki = kind_of (nxi ()) in let i = expr () in
+             let (base, lo, n) = List.nth !arrays a in EIdx (nat_of_int base, lo, nat_of_int n, ki, i) in
     let rec block () = let n = nxi () in List.init n (fun _ -> stmt ())
     and stmt () =
       match nxi () with
@@ -43,6 +48,8 @@ let process line =
       | 4 -> let c = expr () in SWhile (c, block ())
       | 5 -> let b = block () in SRepeat (b, expr ())
       | 6 -> SExit | 7 -> SContinue | 8 -> SReturn
+      | 10 -> let a = nxi () in let ki = kind_of (nxi ()) in let i = expr () in let e = expr () in
+              let (base, lo, n) = List.nth !arrays a in SAssignIdx (nat_of_int base, lo, nat_of_int n, ki, i, e)
       | _ ->
         (* function-block call: instance, EN argument, input arguments, output targets (0 = unbound, x+1 = variable x), ENO target *)
         let inst = nxi () in
@@ -74,6 +81,15 @@ let process line =
           let (fb, fk) = List.nth fbs (nxi ()) in
           let b = !base in base := !base + List.length fk; ks := !ks @ fk; (fb, b)) in
         instances := insts;
+        main_kinds @ !ks
+      end else if String.length id > 0 && id.[0] = 'a' then begin
+        (* arrays: the elements follow the program's variables in the flat store *)
+        let na = nxi () in
+        let base = ref nv in
+        let ks = ref [] in
+        arrays := List.init na (fun _ ->
+          let k = nxi () in let lo = z_of_string (nx ()) in let n = nxi () in
+          let b = !base in base := !base + n; ks := !ks @ List.init n (fun _ -> k); (b, lo, n));
         main_kinds @ !ks
       end else main_kinds in
     let body = block () in
@@ -112,7 +128,7 @@ let process line =
            store := s'; add "0";
            List.iter (function VBool bb -> add "8"; add (if bb then "1" else "0") | VInt (k, z) -> add (string_of_int (int_of_kind k)); add (string_of_z z)) s';
            if not (store_ok env s') then typed_ok := false
-         | Fault f -> add (string_of_int (fault_code f)); if fault_code f >= 5 then static_fault := true; raise Exit
+         | Fault f -> add (string_of_int (fault_code f)); if is_static (fault_code f) then static_fault := true; raise Exit
          | OutOfFuel -> add "OUT-OF-FUEL"; raise Exit)
       done with Exit -> ());
     (* judge the IMPLEMENTATION's observations: C01 no static-class fault / panic / leftover frame for
@@ -146,7 +162,7 @@ let process line =
              if st = "FRAMES-LEFT" then ok01 := false
              else begin
                let code = int_of_string st in
-               if code >= 5 then (if well_typed then ok01 := false);
+               if is_static code then (if well_typed then ok01 := false);
                if code <> 0 then raise Exit;
                List.iter (fun k ->
                  let dk = int_of_string o.(!i) in let dv = z_of_string o.(!i + 1) in i := !i + 2;
